@@ -12,7 +12,7 @@ import random
 import numpy as np
 
 from .common import load_case, new_system
-from . import netbuild
+from . import netbuild, ybus
 
 
 def _solve(ss, method="NR", lib="klu"):
@@ -83,7 +83,9 @@ def pf_variants(sc):
         resid = float(np.max(np.abs(ss.dae.g))) if conv else float("nan")
         if ref is None:
             ref = sol
+        iok, iworst, iwhere = ybus.verdict(ss) if conv else (None, None, "")
         out.append(dict(variant="%s/base%d/order%d/%s/%s" % (idx_kind, base, oseed, method, lib), converged=conv,
+                        indep_ok=bool(iok is not False), indep=[iworst, iwhere],
                         same=bool(conv and len(sol) == len(ref) and np.max(np.abs(sol - ref)) <= 1e-7),
                         resid_ok=bool(conv and resid <= ss.PFlow.config.tol), dmax=float(np.max(np.abs(sol - ref))) if conv and len(sol) == len(ref) else -1.0))
     # the same network after a history of connection changes: the last bus is cut off (all its branches out of service),
@@ -112,7 +114,9 @@ def pf_variants(sc):
         if conv:
             ss.PFlow.fg_update()
             resid = float(np.max(np.abs(ss.dae.g)))
+        iok, iworst, iwhere = ybus.verdict(ss) if conv else (None, None, "")
         out.append(dict(variant="history/cut-last-bus(%d branches)/reconnect" % len(cut), converged=conv,
+                        indep_ok=bool(iok is not False), indep=[iworst, iwhere],
                         same=bool(conv and len(sol) == len(ref) and np.max(np.abs(sol - ref)) <= 1e-7),
                         resid_ok=bool(conv and resid <= ss.PFlow.config.tol),
                         dmax=float(np.max(np.abs(sol - ref))) if conv and len(sol) == len(ref) else -1.0))
@@ -157,6 +161,73 @@ def pf_stock(sc):
                 ok_a = ok_a and abs(ab - sl.a0.v[k]) <= 10 * ss.PFlow.config.tol and abs(vb - sl.v0.v[k]) <= 10 * ss.PFlow.config.tol
         rec["setpoints_ok"] = bool(ok_v and ok_a)
         rec["nan"] = bool(np.isnan(ss.dae.y).any())
+        iok, iworst, iwhere = ybus.verdict(ss)
+        rec["indep_ok"] = bool(iok is not False)
+        rec["indep"] = [iworst, iwhere, "decided" if iok is not None else "undecided"]
+    return rec
+
+
+def pf_qlimits(sc):
+    """PV -> PQ conversion (PV.config.pv2pq = 1): a generated network whose PV generators have reactive limits, some of them
+    binding.  Expected from the documented behaviour: a generator that the library reports at a limit (qlim.zu / zl) delivers
+    exactly that limit and no longer controls its voltage; every other one sits at its voltage set-point; the solution balances
+    (independently) with the reported reactive outputs; flags never return (sticky) - observed after every Newton iteration."""
+    rnd = random.Random(sc["seed"])
+    n = sc.get("n", 5)
+    vb = 110.0
+    devs = [dict(model="Bus", idx=i, Vn=vb) for i in range(1, n + 1)]
+    edges = [(i, i + 1) for i in range(1, n)] + [(1, n)]
+    for k, (a, b) in enumerate(edges):
+        devs.append(dict(model="Line", idx=k + 1, bus1=a, bus2=b, Vn1=vb, Vn2=vb, r=0.01, x=rnd.choice([0.08, 0.1, 0.15]), b=0.04, u=1))
+    devs.append(dict(model="Slack", idx=100, bus=1, Vn=vb, v0=1.02, a0=0.0, p0=0.2, q0=0.0))
+    gens = []
+    for j, bus in enumerate(range(2, n + 1)):
+        if j % 2 == 0 or sc.get("all_pv"):
+            lim = rnd.choice(sc.get("qlims", [0.02, 0.05, 0.5]))
+            lo = rnd.choice(sc.get("qmins", [-0.5, -0.01]))
+            devs.append(dict(model="PV", idx=200 + bus, bus=bus, Vn=vb, Sn=100.0, v0=rnd.choice([1.0, 1.03, 1.05, 0.97]), p0=rnd.choice([0.1, 0.3]),
+                             q0=0.0, qmax=lim, qmin=lo))
+            gens.append(200 + bus)
+        devs.append(dict(model="PQ", idx=300 + bus, bus=bus, Vn=vb, p0=rnd.choice([0.2, 0.4, 0.6]), q0=rnd.choice([0.05, 0.2, 0.3])))
+    opts = ["PV.pv2pq=1", "PV.npv2pq=%d" % sc.get("nsel", 0)]
+    ss, ids, ok = netbuild.build(dict(devices=devs, sys_kw=dict(config_option=opts)))
+    hist = []
+    pv = ss.PV
+    orig = ss.PFlow.nr_step
+
+    def stepped(*a, **kw):
+        r_ = orig(*a, **kw)
+        hist.append((np.array(pv.qlim.zl).astype(int).tolist(), np.array(pv.qlim.zu).astype(int).tolist()))
+        return r_
+    ss.PFlow.nr_step = stepped
+    conv = _solve(ss, sc.get("method", "NR"), "klu")
+    tol = float(ss.PFlow.config.tol)
+    rec = dict(sid=sc["sid"], converged=bool(conv), n_iter=len(hist), enabled=int(pv.config.pv2pq))
+    sticky = True
+    for k in range(1, len(hist)):
+        for side in (0, 1):
+            if len(hist[k][side]) == pv.n and len(hist[k - 1][side]) == pv.n:
+                sticky = sticky and all(b >= a for a, b in zip(hist[k - 1][side], hist[k][side]))
+    rec["sticky"] = bool(sticky)
+    if conv:
+        zl, zu, zi = (np.atleast_1d(getattr(pv.qlim, f)).astype(int) for f in ("zl", "zu", "zi"))
+        at_limit, at_setpoint, inside, onehot = True, True, True, True
+        detail = []
+        for k in range(pv.n):
+            q, v = float(pv.q.v[k]), float(ss.Bus.v.v[ss.Bus.idx2uid(pv.bus.v[k])])
+            qmax, qmin, v0 = float(pv.qmax.v[k]), float(pv.qmin.v[k]), float(pv.v0.v[k])
+            onehot = onehot and (zl[k] + zu[k] + zi[k] == 1)
+            if zu[k]:
+                at_limit = at_limit and abs(q - qmax) <= 10 * tol
+            if zl[k]:
+                at_limit = at_limit and abs(q - qmin) <= 10 * tol
+            if zi[k]:
+                at_setpoint = at_setpoint and abs(v - v0) <= 10 * tol
+                inside = inside and (qmin - 1e-3 <= q <= qmax + 1e-3)
+            detail.append(dict(idx=pv.idx.v[k], q=q, qmin=qmin, qmax=qmax, v=v, v0=v0, zl=int(zl[k]), zu=int(zu[k]), zi=int(zi[k])))
+        iok, iworst, iwhere = ybus.verdict(ss)
+        rec.update(at_limit=bool(at_limit), at_setpoint=bool(at_setpoint), inside=bool(inside), onehot=bool(onehot), indep_ok=bool(iok is not False),
+                   indep=[iworst, iwhere], n_converted=int(zl.sum() + zu.sum()), detail=detail)
     return rec
 
 
